@@ -188,6 +188,21 @@ pub fn build_db(sc: &Scenario) -> MemDb {
             }
         }
     }
+    for pl in &w.placed {
+        let a = w.addr(&pl.at);
+        let bc = bytecode_of(lib_runtime(pl.runtime));
+        let h = bc.hash_slow();
+        let info = AccountInfo { balance: pl.balance.to_u256(), nonce: 1, code_hash: h, code: None, ..Default::default() };
+        if h != KECCAK_EMPTY {
+            db.codes.insert(h, bc);
+        }
+        db.accounts.insert(a, info);
+        for (slot, v) in &pl.storage {
+            if *v != 0 {
+                db.storage.insert((a, U256::from(*slot)), U256::from(*v));
+            }
+        }
+    }
     db.yields = sc.db_yields;
     // faults
     for f in &sc.faults {
@@ -269,6 +284,9 @@ pub fn universe(sc: &Scenario) -> Vec<Address> {
     }
     for i in 0..4 {
         v.insert(w.addr(&AddrRef::Absent(i)));
+    }
+    for pl in &w.placed {
+        v.insert(w.addr(&pl.at));
     }
     v.insert(w.beneficiary_addr());
     v.into_iter().collect()
